@@ -1,0 +1,171 @@
+//go:build verif
+
+package lower
+
+// Verification hook (build tag `verif`, add-only): the lowering of
+// LowerWithWarnings WITHOUT the trailing IR passes (CompactConstants,
+// CompactExpressions, CompactTypes, ReorderTypes, DeduplicateEmits), so that an
+// external harness can observe the module those passes receive in production.
+// The body below is a verbatim copy of LowerWithWarnings up to and including
+// "l.module.Types = l.registry.GetTypes()"; `finish` runs the step that
+// LowerWithWarnings performs after the passes (buildGlobalExpressions).
+
+import (
+	"github.com/gogpu/naga/internal/registry"
+	"github.com/gogpu/naga/ir"
+	"github.com/gogpu/naga/wgsl/internal/parser"
+)
+
+// VerifLowerRaw lowers ast and stops before the compaction passes.
+// finish() must be called exactly once, after the caller has applied whatever
+// passes it wants to module.
+func VerifLowerRaw(ast *parser.Module, source string) (module *ir.Module, finish func(), err error) {
+	// Pre-size module-level slices based on AST declaration counts.
+	// This avoids repeated slice growth during lowering.
+	nFuncs := len(ast.Functions)
+	nStructs := len(ast.Structs)
+	nGlobals := len(ast.GlobalVars)
+	nConsts := len(ast.Constants)
+	nOverrides := len(ast.Overrides)
+	// Types: builtins (~15) + struct types + param/return types.
+	estTypes := 16 // default matches NewTypeRegistry
+	if nStructs > 1 || nFuncs > 2 || nGlobals > 2 {
+		estTypes = nStructs*2 + nFuncs + nGlobals + 16
+	}
+	// Global expressions: roughly 1 per constant/override + 1 per global var init.
+	estGlobalExprs := nConsts + nOverrides + nGlobals + 4
+
+	// Build module with pre-sized slices. Only pre-allocate slices that
+	// have enough expected items to benefit from avoiding regrowth.
+	// For small counts (0-2), nil slice append is fine — Go allocates
+	// on first append with no regrowth for single-element slices.
+	mod := &ir.Module{}
+	if nConsts > 2 {
+		mod.Constants = make([]ir.Constant, 0, nConsts)
+	}
+	if nGlobals > 2 {
+		mod.GlobalVariables = make([]ir.GlobalVariable, 0, nGlobals)
+		mod.GlobalExpressions = make([]ir.Expression, 0, estGlobalExprs)
+	}
+	if nOverrides > 2 {
+		mod.Overrides = make([]ir.Override, 0, nOverrides)
+	}
+
+	l := &Lowerer{
+		module:            mod,
+		source:            source,
+		registry:          registry.NewTypeRegistryWithCap(estTypes),
+		types:             make(map[string]ir.TypeHandle, 16),
+		globals:           make(map[string]ir.GlobalVariableHandle, max(nGlobals, 8)),
+		locals:            make(map[string]ir.ExpressionHandle, 16),
+		moduleConstants:   make(map[string]ir.ConstantHandle, max(nConsts, 16)),
+		moduleOverrides:   make(map[string]ir.OverrideHandle, max(nOverrides, 8)),
+		inlineConstants:   make(map[string]ir.LiteralValue, 32),
+		abstractConstants: make(map[string]*abstractConstInfo, 4),
+		functions:         make(map[string]ir.FunctionHandle, nFuncs),
+		entryPointFuncs:   make(map[string]bool, 4),
+		funcMustUse:       make(map[string]bool, 4),
+		localDecls:        make(map[string]parser.Span, 16),
+		usedLocals:        make(map[string]bool, 16),
+		localConsts:       make(map[string]bool, 4),
+		localIsVar:        make(map[string]bool, 16),
+		localIsPtr:        make(map[string]bool, 4),
+		localAbstractASTs: make(map[string]parser.Expr, 4),
+	}
+
+	// Register built-in types
+	l.registerBuiltinTypes()
+
+	// Dependency-ordered single-pass processing matching Rust naga's visit_ordered().
+	// Declarations are topologically sorted by their dependencies, then processed
+	// in a single pass. This ensures every declaration is lowered AFTER all
+	// declarations it references, producing identical type registration order.
+	sortedDecls := parser.DependencyOrder(ast.Declarations)
+
+	// Pre-register function names to support forward references.
+	// Entry point functions are NOT added to Module.Functions[] — they are
+	// stored inline in EntryPoint.Function (matching Rust naga). Only
+	// regular (non-entry-point) functions get FunctionHandle assignments.
+	// IMPORTANT: Handles are assigned in dependency-sorted order (not source order)
+	// to match Rust naga's visit_ordered() which processes functions in DFS post-order.
+	{
+		// First pass: identify entry points and @must_use functions
+		for _, f := range ast.Functions {
+			if l.entryPointStage(f.Attributes) != nil {
+				l.entryPointFuncs[f.Name] = true
+			}
+			for _, attr := range f.Attributes {
+				if attr.Name == "must_use" {
+					l.funcMustUse[f.Name] = true
+					break
+				}
+			}
+		}
+		// Second pass: assign handles in dependency order
+		nextHandle := ir.FunctionHandle(0)
+		for _, decl := range sortedDecls {
+			if f, ok := decl.(*parser.FunctionDecl); ok {
+				if !l.entryPointFuncs[f.Name] {
+					l.functions[f.Name] = nextHandle
+					nextHandle++
+				}
+			}
+		}
+	}
+	processedFunctions := make(map[string]bool)
+
+	for _, decl := range sortedDecls {
+		switch d := decl.(type) {
+		case *parser.AliasDecl:
+			if err := l.lowerAlias(d); err != nil {
+				l.addError(err.Error(), d.Span)
+			}
+		case *parser.StructDecl:
+			if err := l.lowerStruct(d); err != nil {
+				l.addError(err.Error(), d.Span)
+			}
+		case *parser.VarDecl:
+			if err := l.lowerGlobalVar(d); err != nil {
+				l.addError(err.Error(), d.Span)
+			}
+		case *parser.OverrideDecl:
+			if err := l.lowerOverride(d); err != nil {
+				l.addError(err.Error(), d.Span)
+			}
+		case *parser.ConstDecl:
+			if err := l.lowerConstant(d); err != nil {
+				l.addError(err.Error(), d.Span)
+			}
+		case *parser.FunctionDecl:
+			if err := l.lowerFunction(d); err != nil {
+				l.addError(err.Error(), d.Span)
+			}
+			processedFunctions[d.Name] = true
+		case *parser.ConstAssertDecl:
+			// Module-scope const_assert — evaluate and error if false.
+			// Matches Rust naga: ConstAssertFailed / NotBool.
+			if err := l.evalConstAssert(d.Condition); err != nil {
+				l.addError(err.Error(), d.Span)
+			}
+		}
+	}
+
+	// Fallback: process any functions not in Declarations (e.g., from tests
+	// that build AST manually without populating Declarations).
+	for _, f := range ast.Functions {
+		if !processedFunctions[f.Name] {
+			if err := l.lowerFunction(f); err != nil {
+				l.addError(err.Error(), f.Span)
+			}
+		}
+	}
+
+	if l.errors.HasErrors() {
+		return nil, nil, &l.errors
+	}
+
+	// Copy deduplicated types from registry to module
+	l.module.Types = l.registry.GetTypes()
+
+	return l.module, func() { l.buildGlobalExpressions() }, nil
+}
